@@ -122,6 +122,9 @@ def laws_c(run, mods, p, desc, r, n):
     sc = r.uniform(0, 2048, n)
     fc = r.uniform(0, 2048, n)
     om = r.uniform(-360, 360, n)
+    if desc["index"] % 2:
+        # peak tables where the same omega value turns up again and again (scanning / multi-sweep data), in random order
+        om = r.choice(r.uniform(-360, 360, 5), n)
     cf = columnfile.colfile_from_dict({"sc": sc, "fc": fc, "omega": om})
     cf.parameters = parameters.parameters(**p)
     for fast in (True, False):
@@ -267,7 +270,10 @@ def one_case(run, seed, idx, flip, bits, mods):
     desc = dict(index=idx, flip=flip, bits=bits)
     n = 500 if run.tier == "quick" else 1500
     laws_forward(run, transform, p, desc, r, n)
-    laws_c(run, (transform, columnfile, parameters), p, desc, r, 200)
+    from ImageD11 import cImageD11
+    cImageD11.cimaged11_omp_set_num_threads([1, 2, 4, 8, 16][idx % 5])
+    laws_c(run, (transform, columnfile, parameters), p, desc, r, 200 if idx % 4 else 4000)
+    cImageD11.cimaged11_omp_set_num_threads(4)
     both = inverse_law(run, (transform, gv_general), p, desc, r, n)
     detector_roundtrip(run, transform, p, desc, r, 300)
     run.case((flip, bits, idx % 3), nontrivial=both or p["wedge"] != 0 or p["chi"] != 0,
